@@ -46,6 +46,9 @@ def serializer(cfg):
         kw['doctype'] = dt[1] if dt[0] == 'name' else (dt[1], dt[2], dt[3])
     if cfg['method'] == 'xhtml':
         kw['drop_xml_decl'] = cfg['drop_xml_decl']
+    if cfg.get('nsprefixes') and cfg['method'] in ('xml', 'xhtml'):
+        # preferred prefixes for namespaces that do not occur on the modelled domain: must change nothing
+        kw['namespace_prefixes'] = {'http://www.w3.org/2000/svg': 'svg', 'http://www.w3.org/1999/xlink': 'xlink'}
     return output.get_serializer(cfg['method'], **kw)
 
 
